@@ -410,6 +410,11 @@ class Table:
 
     def _members_any(self, f, names):
         for nm in names:
+            if nm in ("__init__", "__new__") and f.cls:
+                # an explicit obj.__init__(...) inside a method re-initialises an object of the method's own class
+                # (the __copy__/__deepcopy__ idiom  out = cls.__new__(cls); out.__init__(...))
+                self._members_cone(f, f.cls, [nm], store=False)
+                continue
             for g in self.members_by_name.get(nm, []):
                 f.refs.add(g.qn)
 
@@ -524,7 +529,7 @@ class Table:
             elif f.cls and self.class_owns_rng(f.cls): out.append(qn)
         return out
 
-def emit(tab, path):
+def emit(tab, path, extra_names=()):
     qns = sorted(tab.funcs)
     ix = {qn: i + 1 for i, qn in enumerate(qns)}
     comps = tab.components()
@@ -550,7 +555,8 @@ def emit(tab, path):
         A(";\n".join(rows))
         A("].")
     A("Definition nodes : list node := %s." % " ++ ".join(chunks))
-    named = [qn for qn in qns if tab.funcs[qn].direct or tab.funcs[qn].has_rng or qn in comps]
+    extra = {"pybrops." + x for x in extra_names}
+    named = [qn for qn in qns if tab.funcs[qn].direct or tab.funcs[qn].has_rng or qn in extra]
     A("Definition names : list (string * positive) := [")
     A(";\n".join(' ("%s"%%string, %d)' % (qn[len("pybrops."):], ix[qn]) for qn in named))
     A("].")
@@ -571,9 +577,9 @@ def emit(tab, path):
             "edges": sum(len(f.refs) for f in tab.funcs.values()), "with_direct_source": sum(1 for f in tab.funcs.values() if f.direct),
             "rng_components": len(comps), "sha256": hashlib.sha256(txt.encode()).hexdigest()[:16]}
 
-def translate(repo, gen_dir):
+def translate(repo, gen_dir, extra_names=()):
     tab = Table(repo)
-    info = emit(tab, os.path.join(gen_dir, "C08_Entropy.v"))
+    info = emit(tab, os.path.join(gen_dir, "C08_Entropy.v"), extra_names)
     return tab, info
 
 if __name__ == "__main__":
